@@ -12,19 +12,21 @@ from vlib import lit, ref, tmap
 
 KINDS = {'s': ['absent', 'str', 'numstr', 'list', 'map'], 'i': ['absent', 'num', 'neg', 'notnum', 'boolish', 'list'],
          'b': ['absent', 'true', 'false', 'yes', 'off', 'five', 'word', 'list'], 'l': ['absent', 'empty', 'nums', 'mixed', 'scalar'],
-         'o': ['absent', 'min', 'full', 'noreq', 'extra', 'scalar', 'badm'], 'x': ['absent', 'present']}
+         'o': ['absent', 'min', 'full', 'noreq', 'extra', 'scalar', 'badm'], 'x': ['absent', 'present'],
+         'p': ['absent', 're', 'badre']}      # a regular-expression pattern (its unserialized form is a compiled expression)
 YAMLV = {'s': {'str': 'hello', 'numstr': 12, 'list': ['a'], 'map': {'a': 'b'}},
          'i': {'num': 5, 'neg': -3, 'notnum': 'abc', 'boolish': True, 'list': [1]},
          'b': {'true': True, 'false': False, 'yes': 'yes', 'off': 'off', 'five': 5, 'word': 'abc', 'list': [True]},
          'l': {'empty': [], 'nums': [1, 2], 'mixed': [1, 'x'], 'scalar': 3},
          'o': {'min': {'k': 'v'}, 'full': {'k': 'v', 'm': 4}, 'noreq': {'m': 4}, 'extra': {'k': 'v', 'zzz': 1}, 'scalar': 'str', 'badm': {'k': 'v', 'm': 'abc'}},
-         'x': {'present': 'surplus'}}
+         'x': {'present': 'surplus'}, 'p': {'re': '^ab+c$', 'badre': 'a(b'}}
 SCHEMA = {'root': 'RootObject', 'objects': {
     'RootObject': {'id': 'RootObject', 'properties': {
         's': {'type': {'type_id': 'string'}, 'required': True},
         'i': {'type': {'type_id': 'integer'}, 'required': False, 'default': '7'},
         'b': {'type': {'type_id': 'bool'}, 'required': False},
         'l': {'type': {'type_id': 'list', 'items': {'type_id': 'integer'}}, 'required': False},
+        'p': {'type': {'type_id': 'pattern'}, 'required': False},
         'o': {'type': {'type_id': 'ref', 'id': 'Nested'}, 'required': False}}},
     'Nested': {'id': 'Nested', 'properties': {
         'k': {'type': {'type_id': 'string'}, 'required': True},
@@ -99,7 +101,7 @@ def run(ctx):
     docs = []
     seen = set()
     # all single-field deviations from a valid base document, then random combinations
-    base = {'s': 'str', 'i': 'num', 'b': 'true', 'l': 'nums', 'o': 'full', 'x': 'absent', 'w': 'map', 'schema': 'full'}
+    base = {'s': 'str', 'i': 'num', 'b': 'true', 'l': 'nums', 'o': 'full', 'x': 'absent', 'p': 're', 'w': 'map', 'schema': 'full'}
     for f, ks in KINDS.items():
         for k in ks:
             docs.append(dict(base, **{f: k}))
@@ -108,7 +110,7 @@ def run(ctx):
     mini = dict(base, i='absent', b='absent', l='absent', o='absent')
     docs += [dict(mini), dict(mini, s='numstr'), dict(mini, o='min'), dict(mini, o='full'), dict(mini, l='empty'), dict(mini, b='true'), dict(mini, i='num')]
     # the schema without properties: the empty map, one surplus key of each kind, and non-map documents
-    ebase = {'s': 'absent', 'i': 'absent', 'b': 'absent', 'l': 'absent', 'o': 'absent', 'x': 'absent', 'w': 'map', 'schema': 'empty'}
+    ebase = {'s': 'absent', 'i': 'absent', 'b': 'absent', 'l': 'absent', 'o': 'absent', 'x': 'absent', 'p': 'absent', 'w': 'map', 'schema': 'empty'}
     docs += [dict(ebase), dict(ebase, x='present'), dict(ebase, s='str'), dict(ebase, i='num'), dict(ebase, l='nums'), dict(ebase, o='min'),
              dict(ebase, w='list'), dict(ebase, w='scalar')]
     while len(docs) < n:
@@ -175,7 +177,7 @@ def run(ctx):
         for ru in runs:
             if ru['parent'] is None:
                 evn = type_leaves(vlib.norm_events(ru['events'], ost))
-                cases.append({'wf': typed_wf(wf), 'input': norm, 'noreturn': False, 'subs': {}, 'expectItems': {}, 'declPar': {}, 'closure': {}, 'pure': False, 'events': evn})
+                cases.append({'wf': typed_wf(wf), 'input': norm, 'noreturn': False, 'subs': {}, 'expectItems': {}, 'declPar': {}, 'closure': {}, 'subLiveAtReturn': 0, 'pure': False, 'events': evn})
                 owner.append((i, tag, rp))
     v, tst, fails = vlib.validate_cases_parallel(cases, ctx.work)
     for bi, o in fails:
